@@ -1,6 +1,7 @@
 package main
 
 import (
+	"strings"
 	"encoding/hex"
 	"fmt"
 	"os"
@@ -45,6 +46,29 @@ func (c *ProgCase) Judge(rs []Res, env *Env) Outcome {
 	r := rs[0]
 	o := Outcome{Cell: c.Cell_}
 	if ok, why := env.accepted(&r); !ok {
+		if c.Prop == "C04" && r.ParseErr == "" && !r.Crashed() {
+			// every program of the C04 families is valid by construction (the target is reachable in the mode): a refusal leaves the branch unassembled
+			o.Status = Violated
+			o.Viols = []Violation{{Sig: fmt.Sprintf("C04|refused|%s", c.Ctx),
+				Detail: fmt.Sprintf("a branch whose target is reachable is refused (%s); program:\n%s", why, clipStr(c.P.Source(), 1500))}}
+			return o
+		}
+		if c.Prop == "C05" {
+			// every operand list of the data directives is in the property's domain (out-of-range values are truncated, not refused):
+			// a program of data statements that is valid by the model must assemble
+			onlyLayout := true // a file of nothing but comments and blank lines is refused by the grammar ("no match found"): not a data statement
+			for _, st := range c.P.Stmts {
+				if st.K != "raw" || strings.HasPrefix(st.Text, "[") {
+					onlyLayout = false
+				}
+			}
+			if valid, decided := c.P.staticValid(); valid && decided && !onlyLayout {
+				o.Status = Violated
+				o.Viols = []Violation{{Sig: fmt.Sprintf("C05|refused-valid|%s", c.Ctx),
+					Detail: fmt.Sprintf("a program of data directives that is valid by the model is refused (%s); program:\n%s", why, c.P.Source())}}
+				return o
+			}
+		}
 		o.Status, o.Note = Rejected, why
 		return o
 	}
